@@ -565,6 +565,11 @@ structure Input where
   doc : Doc           -- kinds oci, blob: the document under test
   other : Option Doc  -- kinds oci, blob: a document of the other kind given to the
                       -- constructors together with `doc`
+  before : Option Doc -- kinds oci, blob: the (same kind) document that the objects of the
+                      -- validate-edit-validate histories held, and had validated, before they
+                      -- were edited into `doc` (no verdict depends on it)
+  beforeBad : Option Doc -- … and the (usually ill-formed) document held by the objects of the
+                      -- histories that start from a refusal
   rx : String         -- kind regex: "fileName" | "domain" | "repository" | "scope";
                       -- kind ctor: "no-documents"
   text : Text         -- kind regex: the candidate text
@@ -572,8 +577,11 @@ structure Input where
 
 structure Obs where
   okStruct : Bool               -- Validate() of the document built through the struct API returned nil
-  okRepeat : List Bool          -- Validate() again on the same object; on an object that held (and
-                                -- validated) a well-formed document before; … an ill-formed one before
+  okRepeat : List Bool          -- histories on document objects, each ending in a verdict on `doc`
+                                -- (`historyCount` entries, see harness/c09: Validate() again; objects that
+                                -- validated a well-formed / an ill-formed document and were then overwritten,
+                                -- edited field by field, struct-copied and edited, re-used for a second
+                                -- verifier construction)
   okJson : Bool                 -- Validate() of the document marshalled to JSON and decoded again
   okVerifier : Bool             -- verifier.NewVerifierWithOptions accepted the document alone
   okPair : Bool                 -- … accepted it together with `other`
@@ -583,6 +591,9 @@ structure Obs where
   levels : List (List KV)       -- accepted documents: per statement the enforcement map of
                                 -- GetVerificationLevel, sorted by type
   deriving DecidableEq, Repr, FromJson, ToJson
+
+/-- number of validate-edit-validate histories observed per document -/
+def historyCount : Nat := 10
 
 def kindOf (k : String) : Option Kind :=
   if k == "oci" then some .oci else if k == "blob" then some .blob else none
@@ -620,7 +631,7 @@ def run (i : Input) : Obs :=
     let ok := isOk (validate k i.doc)
     let alone := isOk (newVerifier false (ctorArgs k i.doc none).1 (ctorArgs k i.doc none).2)
     let pair := isOk (newVerifier false (ctorArgs k i.doc i.other).1 (ctorArgs k i.doc i.other).2)
-    { okStruct := ok, okRepeat := [ok, ok, ok], okJson := ok, okVerifier := alone, okPair := pair,
+    { okStruct := ok, okRepeat := List.replicate historyCount ok, okJson := ok, okVerifier := alone, okPair := pair,
       okNew := alone, okNewWithOptions := pair, levels := if ok then levelsOf i.doc else [] }
   | none =>
     let m := if i.kind == "ctor" then isOk ctorGuard else recognise i.rx i.text
@@ -639,7 +650,7 @@ def clauses (i : Input) (o : Obs) : Clauses :=
     let wf := decide (WellFormed k i.doc)
     let both := wf && optWF k.other i.other
     [ ("struct_document_accepted_iff_wellformed", o.okStruct == wf),
-      ("validate_answers_the_same_on_a_reused_document_object", o.okRepeat == [wf, wf, wf]),
+      ("verdict_depends_on_the_document_not_on_the_history_of_the_object", o.okRepeat == List.replicate historyCount wf),
       ("json_document_accepted_iff_wellformed", o.okJson == wf),
       ("verifier_construction_accepts_iff_wellformed", o.okVerifier == wf),
       ("verifier_with_both_documents_accepts_iff_both_wellformed", o.okPair == both),
